@@ -123,6 +123,11 @@ SUBQ = [
     ("b > (select min(c) from t2)", True), ("b = (select max(c) from t2 where t2.a = t1.a)", True),
     ("a in (select a from t2) and b > 1", True), ("a in (select a from t2) or b > 1", True),
     ("b in (select c from t2 where t2.a = t1.a)", True), ("a in (select t2.a from t2 join t3 on t2.a = t3.a)", True),
+    # subqueries whose select item is computed, aggregated or de-duplicated (not a bare column)
+    ("a in (select a + 1 from t2)", True), ("b in (select c * 2 from t2 where c > 0)", True), ("a not in (select c - 1 from t2 where c is not null)", True),
+    ("a in (select max(a) from t2)", True), ("a in (select distinct c from t2)", True), ("a + 1 in (select a from t2)", True),
+    ("a in (select a from t2 group by a having count(*) > 1)", True), ("exists (select c + 1 from t2 where t2.a + 1 = t1.a)", True),
+    ("not exists (select 1 from t2 where t2.a = t1.a and t2.c is null)", True), ("a in (select a from t2 order by a limit 2)", True),
 ]
 
 
